@@ -25,6 +25,7 @@ import cardillo.force_laws, cardillo.forces, cardillo.interactions, cardillo.con
 from vp.core import fd
 from vp.core.alphabet import weyl
 from vp.scen import forces as F
+from vp.scen.forces import LibFail, lib, libfail_record as _libfail, Acc, check_manifold
 
 ID = "C07"
 LEVEL = "model_checking"
@@ -55,36 +56,6 @@ CASE_TIMEOUT = 240
 
 ATOL = 1e-8
 RTOL = 1e-7
-
-
-class LibFail(Exception):
-    def __init__(self, site, exc):
-        self.site = site
-        self.exc = exc
-
-
-def lib(site, fn, *a, **k):
-    """library call whose failure is a classified failure of the case"""
-    from vp.core.runner import CaseTimeout
-
-    try:
-        return fn(*a, **k)
-    except CaseTimeout:
-        raise
-    except Exception as e:  # noqa
-        raise LibFail(site, e)
-
-
-def _libfail(e):
-    import traceback
-
-    tb = traceback.extract_tb(e.exc.__traceback__)
-    where = ""
-    for fr in tb:
-        if "/cardillo/" in fr.filename:
-            where = f"{fr.filename.split('/cardillo/')[-1]}:{fr.name}"
-    return {"site": f"{e.site} raises", "msg": f"{type(e.exc).__name__}: {e.exc} (in {where})",
-            "data": {"exc": type(e.exc).__name__, "where": where}}
 
 
 # ------------------------------------------------------------------------------------------------
@@ -146,32 +117,6 @@ def cases(tier, seed):
 # ------------------------------------------------------------------------------------------------
 # oracles
 # ------------------------------------------------------------------------------------------------
-class Acc:
-    def __init__(self):
-        self.fails = []
-        self.evals = 0
-        self.nontrivial = False
-        self.stats = {}
-        self.excluded = 0
-        self._sites = set()
-
-    def stat_max(self, key, v):
-        if v == v:
-            self.stats[key] = max(self.stats.get(key, 0.0), float(v))
-
-    def fail(self, site, msg, data):
-        if site in self._sites:
-            return
-        self._sites.add(site)
-        self.fails.append({"site": site, "msg": msg, "data": data})
-
-    def result(self, **kw):
-        self.stats["n_illcond"] = self.excluded
-        r = {"fails": self.fails, "nontrivial": self.nontrivial, "evals": self.evals, "stats": self.stats}
-        r.update(kw)
-        return r
-
-
 def energy_rate(acc, s, t, q, u):
     """d/ds E_pot(t, q + s q_dot) and its error estimate"""
     qd = lib("System.q_dot", s.q_dot, t, q, u)
@@ -225,12 +170,6 @@ def velocity_letters(nu, seed, small=True):
     L.append(("gen2", 1.7 * weyl(seed, 51, nu)))
     L.append(("zero", np.zeros(nu)))
     return L
-
-
-def check_manifold(sc, t, q):
-    g = sc.system.g(t, q)
-    if g.size and np.max(np.abs(g)) > 1e-10:
-        raise RuntimeError(f"harness: state not on the joint manifold, |g|={np.max(np.abs(g))}")
 
 
 # ------------------------------------------------------------------------------------------------
@@ -362,9 +301,7 @@ def check_force(case):
     sc = F.scene_force("Force", carrier, case["fkind"], seed, xi=xi, offset=offset)
     F.isolate(sc, props=("h", "h_q", "h_u", "E_pot"))
     s = sc.system
-    vel = velocity_letters(s.nu, seed, small=False) if s.nu <= 12 else [
-        v for v in velocity_letters(s.nu, seed, small=False) if not v[0].startswith("e")] + [
-        (f"e{i}", np.eye(s.nu)[i]) for i in range(0, s.nu, 5)]
+    vel = velocity_letters(s.nu, seed, small=False)  # complete basis: both sides are linear in u
     for t in F.TIMES:
         for letter in (0, 1, 2):
             q = F.scene_state(sc, letter, seed, t)
@@ -496,8 +433,7 @@ def check_lineload(case):
                 W -= (rod.r_OP(t, qe, (xi,)) @ ff(t, xi)) * rod.J[el, i] * rod.qw[el, i]
         return W
 
-    vel = [v for v in velocity_letters(system.nu, seed, small=False) if not v[0].startswith("e")]
-    vel += [(f"e{i}", np.eye(system.nu)[i]) for i in range(0, system.nu, 4)]
+    vel = velocity_letters(system.nu, seed, small=False)  # complete basis: both sides are linear in u
     for t in F.TIMES:
         for letter in (0, 1):
             q = np.array(system.q0, float)
